@@ -2,13 +2,33 @@
 
 Crash-point enumeration: the real SyncGroup / FastSyncGroup / ProcessSyncGroup
 are started on the virtual loop over the bus model (fast groups additionally
-over the simulated bpf() system call, process groups with a model child
-process) and driven for three cycles; the task is cancelled before every
-driver step (loop iteration, frame delivery, timer) reached up to then, on the
-default schedule and with one late frame (timeout path).  After the
-cancellation the world keeps running until the task has finished.
+over the simulated bpf() system call) and driven for three cycles; the task is
+cancelled before every driver step (loop iteration, frame delivery, timer)
+reached up to then, on the default schedule and with one late frame (timeout
+path).  After the cancellation the world keeps running until the task has
+finished; from the cancellation on the bus either keeps answering or stops
+answering the group's cyclic process-data frames (state changes and FMMU
+datagrams are always answered).
+
+Process groups: the multiprocessing context's Process is a seam, but what the
+child process would run is real - ProcessSyncGroup.subprocess_loop (with
+ec.run() replaced by an empty context manager), i.e. the real
+SyncGroupBase.run, as a second task on the same virtual loop and bus model.
+The child "exits" when that task ends; 0 or 2 driver steps later its pidfd
+becomes readable.
+
+Terminals have 1, 2, 3 or 4 FMMUs, so that mappings land on every FMMU
+number including 0 (a self-check of the run says which numbers were held).
+After every cancelled execution whose task ended as cancelled the SAME group
+object is started again (fast groups: a new group over the same devices,
+terminals and master, because a loaded EBPF program object cannot be
+assembled twice) and has to reach its first cycle: what was not released
+shows up there.
 """
 import asyncio
+import contextlib
+import ctypes
+import gc
 import os
 import struct
 
@@ -21,26 +41,49 @@ from ebpfcat.ebpfcat import (
 
 PROP = "C24"
 LEVEL = "model_checking"
-RULE = ("group kind (slow / fast / process) x terminal set (alone, or "
-        "with a second group of the same master started before / after it "
-        "that keeps running) x late-frame "
-        "position x every cancellation point (driver step) from start() "
-        "through three cycles; non-trivial = the cancellation hit a running "
-        "task; distinct = distinct (configuration, cancellation step)")
+RULE = ("group kind (slow / fast / process, the latter with the real child "
+        "loop as a second task) x terminal set (1-2 terminals, FMMU and "
+        "direct, read-only and read-write, 1 / 2 / 3 / 4 FMMUs; alone, with "
+        "a second group of the same master on a terminal of its own started "
+        "before / after it, or with one sharing its terminal, that keeps "
+        "running) x late-frame position x every cancellation point (driver "
+        "step) from start() through three cycles x bus answering / silent "
+        "for cyclic frames from the cancellation on x child exit latency; "
+        "every cleanly cancelled group is started again; non-trivial = the "
+        "cancellation hit a running task; distinct = distinct "
+        "(configuration, cancellation step, environment choices)")
 
 CYCLES = 3
+HORIZON = 600           # driver steps granted after the cancellation
+RESTART_HORIZON = 400   # driver steps granted to a restarted group
 KF_FAST_START = "C24-fast-group-dies-at-registration"
 KF_PROC_UNBOUND = "C24-process-group-unbound-error"
 KF_OP_BEFORE_TRY = "C24-op-requested-outside-try"
 KF_PROC_PRESTART = "C24-process-group-cancelled-before-first-step"
 
+# per terminal: (input bytes, output bytes, via FMMU, read-write[, FMMUs])
+# FMMU numbers taken: writers search downward from 1, readers from the last
 CONFIGS = {
     "one-fmmu-rw": [(4, 6, True, True)],
     "one-direct-rw": [(4, 6, False, True)],
     "fmmu-rw+direct-ro": [(4, 6, True, True), (2, 0, False, False)],
     "two-fmmu-rw": [(4, 6, True, True), (2, 2, True, True)],
     "one-fmmu-ro": [(4, 0, True, False)],
+    # OUT on FMMU 1, IN on FMMU 0
+    "rw-2fmmu": [(4, 6, True, True, 2)],
+    # IN on FMMU 0, the only one
+    "ro-1fmmu": [(4, 0, True, False, 1)],
+    # OUT on FMMU 1, IN on FMMU 2
+    "rw-3fmmu": [(4, 6, True, True, 3)],
+    # OUT on FMMU 0, the only one
+    "wo-1fmmu": [(0, 6, True, True, 1)],
+    "rw-2fmmu+ro-1fmmu": [(4, 6, True, True, 2), (2, 0, True, False, 1)],
+    # for the companion sharing the terminal: it takes FMMU 1 and 2, the
+    # (read-only) group under test is left with FMMU 0
+    "ro-3fmmu": [(4, 6, True, False, 3)],
 }
+BOUNDARY = ("rw-2fmmu", "ro-1fmmu", "rw-3fmmu")     # quick tier
+BOUNDARY_MORE = ("wo-1fmmu", "rw-2fmmu+ro-1fmmu")   # thorough in addition
 
 
 class Dev(Device):
@@ -55,35 +98,87 @@ class Dev(Device):
 
 
 class FakeProcess:
-    pid = 4242
+    """what multiprocessing would start: the harness runs the child's
+    coroutine as a task of the virtual loop instead"""
 
-    def __init__(self, target=None):
+    def __init__(self, ctx, target, pid):
+        self.ctx = ctx
         self.target = target
+        self.pid = pid
         self.started = False
+        self.task = None
+        self.exit_in = None     # steps until the pidfd becomes readable
+        self.dead = False
+        self.fired = None       # the reader registration served last
 
     def start(self):
         self.started = True
+        self.task = self.ctx.spawn(self)
+
+
+class Shared:
+    """multiprocessing.sharedctypes' synchronized wrapper, without the
+    shared memory and the lock: the 'child' lives in this very process"""
+
+    def __init__(self, obj):
+        self.obj = obj
+
+    def get_obj(self):
+        return self.obj
+
+    @property
+    def value(self):
+        return self.obj.value
+
+    @value.setter
+    def value(self, v):
+        self.obj.value = v
 
 
 class FakeCtx:
-    def __init__(self, real):
-        self.real = real
+    """stands for the multiprocessing context of a ProcessSyncGroup"""
+    TYPES = dict(B=ctypes.c_ubyte, b=ctypes.c_byte, I=ctypes.c_uint,
+                 i=ctypes.c_int, H=ctypes.c_ushort, h=ctypes.c_short)
+
+    def __init__(self, spawn):
+        self.spawn = spawn
         self.processes = []
 
-    def Value(self, *a):
-        return self.real.Value(*a)
+    def Value(self, typecode, *a):
+        return Shared(self.TYPES[typecode](*a))
 
-    def Array(self, *a):
-        return self.real.Array(*a)
+    def Array(self, typecode, size):
+        return Shared((self.TYPES[typecode] * size)())
 
     def Process(self, target=None, **kw):
-        p = FakeProcess(target)
+        p = FakeProcess(self, target, 4242 + len(self.processes))
         self.processes.append(p)
         return p
 
 
+PIDFD = 700
+
+
+@contextlib.asynccontextmanager
+async def connected():
+    """stands for ParallelEtherCat.run() in the child: the connection is the
+    bus model's"""
+    yield
+
+
+def outcome_of(task):
+    if not task.done():
+        return ("pending",)
+    if task.cancelled():
+        return ("cancelled",)
+    if task.exception() is not None:
+        return ("error", type(task.exception()).__name__,
+                str(task.exception())[:80])
+    return ("returned",)
+
+
 def execute(kind, cname, late_at, cancel_at, child_delay=0, latency=0,
-            via_run=False, companion=None):
+            via_run=False, companion=None, silent=False, restart=True):
     """-> observation dict.  cancel_at None = just measure the default run.
     latency: AL state transitions take that many status polls.
     via_run (fast groups): the group is started inside `async with
@@ -91,7 +186,13 @@ def execute(kind, cname, late_at, cancel_at, child_delay=0, latency=0,
     registered groups through FastSyncGroup.cancel().
     companion ("before" / "after"): a second group of the same kind on the
     same master, with a terminal of its own, started before / after the
-    group under test and never cancelled: it must not notice anything."""
+    group under test and never cancelled: it must not notice anything.
+    companion "shared": the second group (read-write, started before) uses
+    the SAME terminal.
+    silent: from the cancellation on the bus does not answer the group's
+    cyclic process-data frames any more (they are lost).
+    child_delay (process groups): driver steps between the end of the
+    child's loop and its pidfd becoming readable."""
     conf = CONFIGS[cname]
     sk = None
     obs = dict(kind=kind, steps=0, cycles=0, cancelled_running=False)
@@ -114,8 +215,9 @@ def execute(kind, cname, late_at, cancel_at, child_delay=0, latency=0,
             w.ec.programs = ecat.create_map(ecat.MapType.PROG_ARRAY, 4, 4,
                                             w.ec.MAX_PROGS)
         terms = []
-        for i, (isz, osz, fmmu, rw) in enumerate(conf):
-            t = w.add_terminal(isz, osz, use_fmmu=fmmu)
+        for i, (isz, osz, fmmu, rw, *more) in enumerate(conf):
+            t = w.add_terminal(isz, osz, use_fmmu=fmmu,
+                               n_fmmu=more[0] if more else 4)
             terms.append(t)
             if latency:
                 def poll(model, left=[latency]):
@@ -131,6 +233,7 @@ def execute(kind, cname, late_at, cancel_at, child_delay=0, latency=0,
                     return "reach"
                 t.model.al_poll = poll
         dev = Dev({t: c[3] for t, c in zip(terms, conf)})
+        procs = []
         if kind == "slow":
             sg = SyncGroup(w.ec, [dev])
         elif kind == "fast":
@@ -138,24 +241,66 @@ def execute(kind, cname, late_at, cancel_at, child_delay=0, latency=0,
         else:
             w.ec.fmmu_lock_file = type("FmmuStub", (), dict(
                 get_next_addr=lambda self: 0x401000))()
+            # the child process "connects" to the bus model
+            w.ec.run = connected
+
+            def spawn(process):
+                # multiprocessing would pickle the group into a new
+                # interpreter and call target() = subprocess_run() there,
+                # which is asyncio.run(subprocess_loop())
+                group = process.target.__self__
+                return asyncio.ensure_future(group.subprocess_loop())
+            fake = FakeCtx(spawn)
+            saved["get_context"] = ecat.get_context
+            ecat.get_context = lambda method=None: fake
             sg = ProcessSyncGroup(w.ec, [dev])
-            sg.ctx = FakeCtx(sg.ctx)
+            if sg.ctx is not fake:
+                raise core.Internal("the multiprocessing context is not "
+                                    "taken from ebpfcat.ebpfcat.get_context")
+            procs = fake.processes
             saved["pidfd_open"] = os.pidfd_open
-            os.pidfd_open = lambda pid: 777
+            os.pidfd_open = lambda pid: PIDFD + pid
         sg2 = task2 = t2 = None
+        theirs = set()
         if companion:
-            t2 = w.add_terminal(4, 6, use_fmmu=True)
+            if companion == "shared":
+                t2 = terms[0]
+            else:
+                t2 = w.add_terminal(4, 6, use_fmmu=True)
             sg2 = type(sg)(w.ec, [Dev({t2: True})])
-            if companion == "before":
+            if companion in ("before", "shared"):
                 task2 = sg2.start()
+            if companion == "shared":
+                # it is well under way when the group under test starts
+                seen2 = []
+                orig2 = sg2.update_devices
+
+                def update_devices2(data):
+                    seen2.append(1)
+                    return orig2(data)
+                sg2.update_devices = update_devices2
+                for _ in range(400):
+                    if seen2 or task2.done():
+                        break
+                    if w.loop.has_ready():
+                        w.loop.run_once()
+                    elif w.master.transport.inflight:
+                        w.master.deliver(0)
+                    elif not w.loop.advance():
+                        break
+                if not seen2:
+                    raise core.Internal("the companion group did not get "
+                                        "going")
         cycles = [0]
-        if kind != "process":
-            orig = sg.update_devices
+
+        def count_cycles(group):
+            orig = group.update_devices
 
             def update_devices(data):
                 cycles[0] += 1
                 return orig(data)
-            sg.update_devices = update_devices
+            group.update_devices = update_devices
+        count_cycles(sg)
         leave = None
         if via_run:
             import ebpfcat.xdp as xdpmod
@@ -192,41 +337,63 @@ def execute(kind, cname, late_at, cancel_at, child_delay=0, latency=0,
             task = sg.start()
         if companion == "after":
             task2 = sg2.start()
-        index = [None]
+        if sg2 is not None:
+            theirs = {a for a in sg2.fmmu_maps.get(t2, {}).values()}
+        tp = w.master.transport
+
+        def processes_step():
+            """the children: a child whose loop has ended is gone a few
+            steps later, from then on its pidfd is readable"""
+            waiting = False
+            for p in procs:
+                if p.task is None:
+                    continue
+                if p.task.done() and p.exit_in is None:
+                    p.exit_in = child_delay
+                if p.exit_in is not None and not p.dead:
+                    if p.exit_in == 0:
+                        p.dead = True
+                    else:
+                        p.exit_in -= 1
+                        waiting = True
+                if p.dead:
+                    reg = w.loop.readers.get(PIDFD + p.pid)
+                    if reg is not None and reg is not p.fired:
+                        p.fired = reg
+                        w.loop.fire_reader(PIDFD + p.pid)
+            return waiting
+
+        def is_cyclic(frame):
+            pi = getattr(sg, "packet_index", None)
+            return pi is not None and len(frame) >= 8 and \
+                struct.unpack_from("<i", frame, 4)[0] == pi
         cyclic_seen = [0]
-        child_exit_in = [None]
+        dropped = 0
         step = 0
         cancelled = False
-        while not task.done() and step < 3000:
+        limit = 3000
+        while not task.done() and step < limit:
             if cancel_at is not None and step == cancel_at and not cancelled:
                 cancelled = True
+                limit = step + HORIZON
                 obs["cancelled_running"] = not task.done()
                 if leave is not None:
                     leave.set_result(None)
                 else:
                     task.cancel()
-            if cancel_at is None and (cycles[0] >= CYCLES or
-                                      (kind == "process" and step > 12)):
+            if cancel_at is None and cycles[0] >= CYCLES:
                 break
-            # model child: exits some steps after it was asked to stop
-            if kind == "process" and cancelled and \
-                    not sg.runningValue.value and child_exit_in[0] is None:
-                child_exit_in[0] = child_delay
-            if child_exit_in[0] is not None:
-                if child_exit_in[0] == 0 and 777 in w.loop.readers:
-                    w.loop.fire_reader(777)
-                    child_exit_in[0] = -1
-                elif child_exit_in[0] > 0:
-                    child_exit_in[0] -= 1
-            tp = w.master.transport
+            child_pending = processes_step()
             if w.loop.has_ready():
                 w.loop.run_once()
             elif tp.inflight:
                 frame = tp.inflight[0]
-                pi = getattr(sg, "packet_index", None)
-                is_cyc = pi is not None and len(frame) >= 8 and \
-                    struct.unpack_from("<i", frame, 4)[0] == pi
-                if is_cyc:
+                if is_cyclic(frame):
+                    if cancelled and silent:
+                        tp.inflight.pop(0)      # lost
+                        dropped += 1
+                        step += 1
+                        continue
                     cyclic_seen[0] += 1
                     if late_at is not None and cyclic_seen[0] - 1 == late_at \
                             and w.loop.next_timer() is not None:
@@ -236,31 +403,22 @@ def execute(kind, cname, late_at, cancel_at, child_delay=0, latency=0,
                         continue
                 w.master.deliver(0)
             elif not w.loop.advance():
-                waiting_for_child = kind == "process" and \
-                    child_exit_in[0] is not None and child_exit_in[0] >= 0
-                if cancel_at is None or not waiting_for_child:
+                if not child_pending:
                     break
             step += 1
         obs["steps"] = step
         obs["cycles"] = cycles[0]
+        obs["dropped"] = dropped
         obs["done"] = task.done()
-        if task.done():
-            if task.cancelled():
-                obs["outcome"] = ("cancelled",)
-            elif task.exception() is not None:
-                obs["outcome"] = ("error", type(task.exception()).__name__,
-                                  str(task.exception())[:80])
-            else:
-                obs["outcome"] = ("returned",)
-        else:
-            obs["outcome"] = ("pending",)
+        obs["outcome"] = outcome_of(task)
         # what the terminals were asked
         asked = []
         for t in terms:
             ctl = [v for k, v in t.model.al_log if k == "ctl"]
             asked.append(ctl)
         obs["al_requests"] = asked
-        obs["fmmu_used"] = [list(t.fmmu_used) for t in terms]
+        obs["fmmu_used"] = [[None if x in theirs else x for x in t.fmmu_used]
+                            for t in terms]
         if kind == "fast":
             m = sk.map_of(w.ec.programs)
             obs["registered"] = sorted(m.progs)
@@ -283,7 +441,8 @@ def execute(kind, cname, late_at, cancel_at, child_delay=0, latency=0,
                 error=(repr(task2.exception())[:80] if task2.done() and
                        not task2.cancelled() and task2.exception() else None),
                 al_requests=ctl2, index=mine,
-                fmmu_used=list(t2.fmmu_used))
+                fmmu_used=list(t2.fmmu_used),
+                fmmu_held=all(a in t2.fmmu_used for a in theirs))
             if kind == "fast":
                 obs["companion"]["slot_ok"] = (
                     mine in m.progs and w.ec.sync_groups.get(mine) is sg2)
@@ -292,11 +451,63 @@ def execute(kind, cname, late_at, cancel_at, child_delay=0, latency=0,
                                      if i != mine]
                 obs["sync_groups"] = [i for i in obs["sync_groups"]
                                       if i != mine]
-            obs["fmmu_used"] = obs["fmmu_used"][:len(terms)]
         if kind == "process":
             obs["running_flag"] = bool(sg.runningValue.value)
-            obs["child_exited"] = child_exit_in[0] == -1
-            obs["reader_left"] = 777 in w.loop.readers
+            child = procs[0] if procs else None
+            obs["child_exited"] = bool(child and child.dead)
+            obs["child"] = outcome_of(child.task) if child and child.task \
+                else ("not started",)
+            obs["reader_left"] = any(PIDFD + p.pid in w.loop.readers
+                                     for p in procs)
+        # ------------------------------------------------------ restart
+        clean = cancel_at is not None and obs["cancelled_running"] and \
+            obs["outcome"] == ("cancelled",) and not via_run and \
+            (kind != "process" or (obs["child_exited"] and
+                                   not obs["running_flag"]))
+        if restart and clean:
+            before = cycles[0]
+            try:
+                if kind == "fast":
+                    # an EBPF program object cannot be assembled a second
+                    # time once it was loaded, cancelled or not: a fresh
+                    # group over the same devices, terminals and master
+                    sg = FastSyncGroup(w.ec, [dev])
+                    count_cycles(sg)
+                    # ... under a number of its own: the master may still
+                    # wait for a lost frame under the old one, which is
+                    # not among the resources C24 names
+                    draws = iter([21])
+                again = sg.start()
+            except Exception as e:
+                obs["restart"] = ("error", type(e).__name__, str(e)[:80])
+            else:
+                for _ in range(RESTART_HORIZON):
+                    if again.done() or cycles[0] > before:
+                        break
+                    if any(p.task is not None and p.task.done()
+                           for p in procs[1:]):
+                        break
+                    processes_step()
+                    if w.loop.has_ready():
+                        w.loop.run_once()
+                    elif tp.inflight:
+                        w.master.deliver(0)
+                    elif not w.loop.advance():
+                        break
+                if cycles[0] > before:
+                    obs["restart"] = ("cycle",)
+                elif again.done():
+                    obs["restart"] = outcome_of(again)
+                elif len(procs) > 1 and procs[1].task is not None and \
+                        procs[1].task.done():
+                    obs["restart"] = ("child",) + outcome_of(procs[1].task)
+                else:
+                    obs["restart"] = ("pending",)
+        for p in procs:
+            # the harness's own tasks: their exceptions are looked at here
+            if p.task is not None and p.task.done() and \
+                    not p.task.cancelled():
+                p.task.exception()
         obs["loop_errors"] = [
             (str(c.get("message"))[:50], type(c.get("exception")).__name__)
             for c in w.loop.collect_garbage_errors()]
@@ -324,6 +535,7 @@ def execute(kind, cname, late_at, cancel_at, child_delay=0, latency=0,
 
 def judge(case, obs, res):
     kind = case["kind"]
+    conf = CONFIGS[case["config"]]
 
     def bad(exp, seen, what, kf=None):
         res.violation(case, exp, seen, kf=kf,
@@ -335,10 +547,20 @@ def judge(case, obs, res):
             if kind == "fast" and obs["outcome"][1] == "KeyError":
                 kf = KF_FAST_START
             bad("group runs", obs["outcome"], "sync group dies by itself", kf)
+        if kind == "process" and (obs["child"][0] != "pending" or
+                                  obs["cycles"] < CYCLES):
+            bad("the subprocess's loop runs", (obs["child"], obs["cycles"]),
+                "sync group dies by itself")
         return
     if not obs["cancelled_running"]:
         return
     out = obs["outcome"]
+    # the documented defect: the task is cancelled before wait_for_process
+    # ever ran, nobody tells the subprocess to stop, it goes on and on
+    pre = KF_PROC_PRESTART if kind == "process" and case["cancel_at"] == 0 \
+        and out == ("cancelled",) and obs["running_flag"] \
+        and not obs["child_exited"] and obs["child"] == ("pending",) \
+        else None
     if out != ("cancelled",):
         kf = None
         if kind == "process" and out[0] == "error" and \
@@ -347,27 +569,33 @@ def judge(case, obs, res):
         if kind == "fast" and out[0] == "error" and out[1] == "KeyError":
             kf = KF_FAST_START
         bad(("cancelled",), out, "task did not end cancelled", kf)
+    shared = case.get("companion") == "shared"
     for i, ctl in enumerate(obs["al_requests"]):
+        if shared and i == 0:
+            # the companion keeps this terminal OPERATIONAL (judged below);
+            # the group under test has it read-only and asks for nothing
+            continue
         if 8 in ctl:
             last_op = len(ctl) - 1 - ctl[::-1].index(8)
             if 4 not in ctl[last_op + 1:]:
                 bad("SAFE-OP request after the OP request",
                     dict(terminal=i, requests=ctl),
                     "terminal asked to go OPERATIONAL is not asked back to "
-                    "SAFE-OPERATIONAL", KF_OP_BEFORE_TRY)
+                    "SAFE-OPERATIONAL", pre or KF_OP_BEFORE_TRY)
     if any(x is not None for fu in obs["fmmu_used"] for x in fu):
-        bad("all FMMUs free", obs["fmmu_used"], "FMMU not freed")
+        bad("all FMMUs free", obs["fmmu_used"], "FMMU not freed", pre)
     if kind == "fast":
         if obs["registered"] or obs["sync_groups"]:
             bad("program unregistered", (obs["registered"],
                                          obs["sync_groups"]),
                 "kernel program still registered")
     if kind == "process":
-        pre = KF_PROC_PRESTART if case["cancel_at"] == 0 and \
-            out == ("cancelled",) and obs["running_flag"] else None
         if obs["running_flag"]:
             bad("subprocess told to stop", "running flag still set",
                 "subprocess not stopped", pre)
+        elif out[0] != "pending" and obs["child"][0] == "pending":
+            bad("subprocess stopped", "its loop goes on",
+                "subprocess not stopped")
         if out == ("cancelled",) and not obs["child_exited"]:
             bad("task waits for the subprocess to exit", "ended before",
                 "task ended before the subprocess stopped", pre)
@@ -381,12 +609,18 @@ def judge(case, obs, res):
             bad("the other group's terminal stays OPERATIONAL", ctl,
                 "cancelling one group took another group's terminal out of "
                 "OPERATIONAL")
+        if not comp["done"] and not comp["fmmu_held"]:
+            bad("the other group's FMMUs stay its own", comp["fmmu_used"],
+                "cancelling one group released another group's FMMU")
         if kind == "fast" and comp["index"] is not None and \
                 not comp["done"] and not comp["slot_ok"]:
             bad("the other group's program stays registered under its own "
                 "number", comp["index"],
                 "cancelling one group unregistered / replaced another "
                 "group's program")
+    if "restart" in obs and obs["restart"] != ("cycle",):
+        bad("the cancelled group can be started again", obs["restart"],
+            "restarted group does not reach its first cycle")
     for msg, exc in obs["loop_errors"]:
         if exc in ("CancelledError",):
             continue
@@ -396,8 +630,11 @@ def judge(case, obs, res):
 
 
 def work(item, res):
-    kind, cname, late_at, latency, via_run, *more = item
-    companion = more[0] if more else None
+    kind, cname, late_at, latency, via_run, companion, silents = item
+    # every execution ends with a full garbage collection (the 'never
+    # retrieved' reports); what exists by now need not be walked each time
+    gc.collect()
+    gc.freeze()
     base = dict(kind=kind, config=cname, late_at=late_at, latency=latency,
                 via_run=via_run)
     if companion:
@@ -405,72 +642,144 @@ def work(item, res):
     ref = execute(kind, cname, late_at, None, 0, latency, via_run, companion)
     judge(dict(base, cancel_at=None), ref, res)
     n = ref["steps"]
+    # which FMMU numbers the running group holds (whatever the allocation
+    # policy of the code under test is)
+    res.cov["fmmu_numbers_held"] = set(
+        res.cov.get("fmmu_numbers_held", ())) | {
+        i for fu in ref["fmmu_used"] for i, x in enumerate(fu)
+        if x is not None}
     res.count("evaluations")
     reached = 0
     delays = (0, 2) if kind == "process" else (0,)
     for k in range(0, n + 1):
         for delay in delays:
-            obs = execute(kind, cname, late_at, k, delay, latency, via_run,
-                          companion)
-            res.count("evaluations")
-            res.count("transitions", obs["steps"])
-            case = dict(base, cancel_at=k, child_delay=delay)
-            if obs["cancelled_running"]:
-                reached += 1
-                res.nontrivial.add(core.digest(case))
-            res.outcomes.add((kind, obs["outcome"][:2]))
-            judge(case, obs, res)
+            for silent in silents:
+                obs = execute(kind, cname, late_at, k, delay, latency,
+                              via_run, companion, silent)
+                if silent and not obs["dropped"] and False in silents:
+                    # no cyclic frame was on its way any more: this is the
+                    # execution with the answering bus once again
+                    continue
+                res.count("evaluations")
+                res.count("transitions", obs["steps"])
+                case = dict(base, cancel_at=k, child_delay=delay)
+                if silent:
+                    case["silent"] = True
+                if obs["cancelled_running"]:
+                    reached += 1
+                    res.nontrivial.add(core.digest(case))
+                if "restart" in obs:
+                    res.count("restarts")
+                    res.count(f"restarts_{kind}")
+                if obs["dropped"]:
+                    res.count(f"cancelled_on_silent_bus_{kind}")
+                res.outcomes.add((kind, obs["outcome"][:2]))
+                judge(case, obs, res)
     res.count(f"cancellation_points_{kind}", reached)
     a = execute(kind, cname, late_at, n // 2, 0, latency, via_run,
-                companion)
+                companion, silents[-1])
     b = execute(kind, cname, late_at, n // 2, 0, latency, via_run,
-                companion)
+                companion, silents[-1])
     if a != b:
         raise core.Internal("non-deterministic execution")
 
 
 def run(ctx):
     items = []
+    both = (False, True)
     for kind in ("slow", "fast", "process"):
+        # the bus falling silent matters where somebody has to notice a
+        # flag by himself (process); the other kinds get it in the thorough
+        # tier on the plain configurations
+        silents = both if kind == "process" or not ctx.quick else (False,)
+        boundary = BOUNDARY if ctx.quick else BOUNDARY + BOUNDARY_MORE
         for cname in CONFIGS:
-            if kind == "process" and cname not in ("one-fmmu-rw",
-                                                   "one-direct-rw"):
+            if cname == "ro-3fmmu":
                 continue
-            lates = [None] if kind == "process" else \
-                ([None, 1] if ctx.quick else [None, 0, 1, 2])
+            if kind == "process" and cname not in (
+                    "one-fmmu-rw", "one-direct-rw") + boundary:
+                continue
+            if cname in BOUNDARY_MORE and ctx.quick:
+                continue
+            if cname in boundary:
+                lates = [None] if ctx.quick else [None, 1]
+            elif kind == "process":
+                lates = [None, 1]
+            else:
+                lates = [None, 1] if ctx.quick else [None, 0, 1, 2]
             for late_at in lates:
-                items.append((kind, cname, late_at, 0, False))
-            if kind != "process":
+                items.append((kind, cname, late_at, 0, False, None, silents))
+            if kind != "process" and cname not in boundary or \
+                    kind == "process" and cname == "one-fmmu-rw":
                 # slow terminals: a state change takes two status polls
-                items.append((kind, cname, None, 2, False))
+                items.append((kind, cname, None, 2, False, None, (False,)))
             if kind == "fast" and cname in ("one-fmmu-rw", "two-fmmu-rw"):
                 # cancelled by leaving `async with ec.run():`
-                items.append((kind, cname, None, 0, True))
+                items.append((kind, cname, None, 0, True, None, (False,)))
             if kind != "process" and cname in ("one-fmmu-rw",
                                                "fmmu-rw+direct-ro"):
                 # another group of the same master keeps running
                 for comp in ("before", "after"):
-                    items.append((kind, cname, None, 0, False, comp))
+                    items.append((kind, cname, None, 0, False, comp,
+                                  (False,)))
+        if kind != "process":
+            # ... on the same terminal: it holds FMMU 1 and 2
+            items.append((kind, "ro-3fmmu", None, 0, False, "shared",
+                          (False,)))
     res = core.pmap(ctx, work, items, chunk=1)
     # merge the per-item dicts that pmap overwrote
     res.cov["states"] = len(res.nontrivial)
     res.cov["traces_validated_against_impl"] = res.cov.get("evaluations", 0)
+    broken = any(v["kf"] is None for v in res.violations)
     for kind in ("slow", "fast", "process"):
         if not res.cov.get(f"cancellation_points_{kind}"):
             raise core.Internal(f"no cancellation point reached for the "
                                 f"{kind} group kind (vacuous)")
+        # (a tree on which no group of a kind ends cleanly has violations)
+        if not res.cov.get(f"restarts_{kind}") and not broken:
+            raise core.Internal(f"no cancelled {kind} group was started "
+                                "again (vacuous)")
+    held = res.cov["fmmu_numbers_held"] = sorted(
+        res.cov.get("fmmu_numbers_held", ()))
+    if held[:2] != [0, 1] and not broken:
+        raise core.Internal(f"mappings land on FMMU numbers {held} only: "
+                            "the terminal sets do not reach FMMU 0 and 1")
+    if not res.cov.get("cancelled_on_silent_bus_process") and not broken:
+        raise core.Internal("no process group was cancelled on a silent bus")
     res.sample(dict(kind="slow", config="fmmu-rw+direct-ro", late_at=1,
                     cancel_at=37))
+    res.sample(dict(kind="process", config="rw-2fmmu", late_at=None,
+                    cancel_at=60, child_delay=2, silent=True,
+                    meaning="the child's real loop is in its cyclic part "
+                            "when the task is cancelled and the bus stops "
+                            "answering process data; mappings on FMMU 1 "
+                            "and 0; the group is started again afterwards"))
     res.assumptions += [
         "a cancellation point is a driver step (one loop iteration, one "
         "frame delivery or one timer jump); after the cancellation the bus "
-        "keeps answering until the task has finished",
+        "keeps answering until the task has finished, or (choice) loses "
+        "every cyclic process-data frame of the group from then on while "
+        "still answering state-change and FMMU datagrams",
         "'FMMUs freed' is judged on the terminal objects' slot tables",
         "fast groups run over the simulated bpf() (program table = a "
         "PROG_ARRAY in mc/simkernel); frames return from the bus directly",
-        "process groups: the child is a model that exits 0 or 2 driver "
-        "steps after the running flag was cleared; os.pidfd_open and the "
-        "multiprocessing context's Process are seams"]
+        "process groups: the multiprocessing context's Process and "
+        "os.pidfd_open are seams; the child is the real "
+        "ProcessSyncGroup.subprocess_loop (ec.run() replaced by an empty "
+        "context manager) run as a second task on the same virtual loop, "
+        "on the SAME group, master and terminal objects (the real child "
+        "works on pickled copies); its pidfd becomes readable 0 or 2 driver "
+        "steps after that task ended and stays readable",
+        "restart: a group whose task ended cancelled (process: whose child "
+        "has exited) is started again on the same object (fast: a new "
+        "FastSyncGroup over the same devices, terminals and master, under "
+        "a program number of its own) with the bus answering normally and "
+        "must reach one more update_devices() within "
+        f"{RESTART_HORIZON} driver steps; not done after leaving ec.run()",
+        "a companion group sharing the terminal is through its first cycle "
+        "before the group under test starts",
+        f"a task still pending {HORIZON} driver steps after its "
+        "cancellation is reported as not ended"]
     return res
 
 
@@ -479,7 +788,8 @@ def replay(ctx, rep):
     c = rep["case"]
     obs = execute(c["kind"], c["config"], c["late_at"], c["cancel_at"],
                   c.get("child_delay", 0), c.get("latency", 0),
-                  c.get("via_run", False), c.get("companion"))
+                  c.get("via_run", False), c.get("companion"),
+                  c.get("silent", False))
     print(obs)
     judge(c, obs, res)
     return res.violations
